@@ -112,13 +112,22 @@ PROPS['C01'] = dict(
 PROPS['C02'] = dict(
     lean_modules=['FluentVerif.Props.C02'],
     theorems=['FV.C02_Message', 'FV.C02_MessageExt', 'FV.C02_Forward', 'FV.C02_Packed', 'FV.C02_packed_stream', 'FV.C02_options',
-              'FV.C02_ack', 'FV.C02_helo', 'FV.C02_ping', 'FV.C02_pong', 'FV.C02_eventtime'],
-    suites=[_RT_SUITE],
+              'FV.C02_ack', 'FV.C02_helo', 'FV.C02_ping', 'FV.C02_pong', 'FV.C02_eventtime',
+              'FV.C02_SendMessage', 'FV.C02_SendMessageExt', 'FV.C02_SendForward', 'FV.C02_SendPacked', 'FV.C02_SendCompressed',
+              'FV.C02_SendPackedFromBytes', 'FV.C02_SendCompressedFromBytes', 'FV.Helper.wire_eq_wireG'],
+    suites=[_RT_SUITE],   # + the tcp suite, added below once it is defined
     rule=_RT_RULE,
     explanation="C02_T: the bytes the encoder model emits are exactly one msgpack value that satisfies the Forward v1 grammar "
                 "predicate for its mode (specification parser + grammar in Forward/Spec.lean, sharing nothing with the "
                 "encoder models). Correspondence (rt): the real bytes of both encoder paths equal the model's, and the "
-                "grammar oracle (incl. 'every type-0 extension is a fixext8') is evaluated on the real bytes.",
+                "grammar oracle (incl. 'every type-0 extension is a fixext8') is evaluated on the real bytes. Helpers: "
+                "C02_Send* — each Send* helper of the client puts exactly the mode it names on the wire (Message with the second of "
+                "the call, MessageExt with its instant, Forward / PackedForward with exactly the entries and size, "
+                "CompressedPackedForward with compressed=gzip and a bin that gunzips to the packed entries), options = the "
+                "constructor's plus the chunk id iff acks are required. Correspondence (tcp suite): the bytes the mock connection "
+                "accepted from every successful helper call equal Helper.wireG for the clock reading and chunk id found in them "
+                "(stamp within [t0, t0+2] s; compressed payload gunzipped by the harness); RawMessage / SendRaw bytes verbatim at "
+                "sizes around and above the 2 KiB writer buffer.",
     assumptions=_CODEC_ASSUME,
 )
 
@@ -264,6 +273,10 @@ PROPS['C09'] = dict(
                 "oracles compare the bytes the mock accepted with the model's encoding. Websocket client half: see C17.",
     assumptions=_TCP_ASSUME,
 )
+
+PROPS['C02']['suites'] = [_RT_SUITE, _TCP_SUITE]
+PROPS['C02']['rule'] = _RT_RULE + ' || ' + _TCP_RULE
+PROPS['C02']['assumptions'] = PROPS['C02']['assumptions'] + _TCP_ASSUME
 
 PROPS['C04'] = dict(
     lean_modules=['FluentVerif.Props.C04'],
@@ -415,16 +428,37 @@ PROPS['C16'] = dict(
     translator=True,
     lean_modules=['FluentVerif.Props.C15', 'FluentVerif.Conc.Lockset', 'FluentVerif.Tie.Conc'],
     theorems=['FV.WsR.C16_one_reader', 'FV.Tie.C16_one_writer', 'FV.Tie.wsConn_lockset', 'FV.Tie.readMessage_only_in_readLoop',
-              'FV.Tie.readLoop_spawned_only_by_Listen', 'FV.Tie.writeMessage_single_site'],
+              'FV.Tie.readLoop_spawned_only_by_Listen'],
     suites=_WC_SUITES,
     race_suites=[('wsconn', dict(quick=12, thorough=120))],
     rule=_WC_RULE,
-    explanation="C16_one_writer: check_sound on the regenerated graph of ws/connection.go — the single call site of Conn.WriteMessage "
-                "(writeMessage_single_site) is under writeLock exclusively, so data frames and the close frame never overlap, under "
-                "every schedule. C16_one_reader: reader model (any number of Listen calls, arbitrary interleaving): at most one "
+    explanation="C16_one_writer: check_sound on the regenerated graph of ws/connection.go — every call of a frame-writing method of "
+                "the underlying connection (WriteMessage, NextWriter, WriteControl, WritePreparedMessage, WriteJSON) is under "
+                "writeLock exclusively, so data frames and the close frame never overlap, under every schedule. C16_one_reader: reader model (any number of Listen calls, arbitrary interleaving): at most one "
                 "thread is ever between the listening gate and the end of its read loop; the translator facts tie it: ReadMessage "
                 "is called only in runReadLoop, which is spawned only by Listen. Oracle on real runs: the instrumented ext.Conn "
                 "never sees two goroutines inside WriteMessage or inside ReadMessage; a second Listen returns the already-listening "
                 "error.",
     assumptions=_WC_ASSUME,
 )
+
+
+# ---- cross-suite additions (suites defined further up than the property they also serve) ----
+PROPS['C09']['suites'] = [_TCP_SUITE, _WS_SUITES[0]]
+PROPS['C09']['lean_modules'] = PROPS['C09']['lean_modules'] + ['FluentVerif.Props.C17']
+PROPS['C09']['theorems'] = PROPS['C09']['theorems'] + ['FV.WsC.C17_failed_write', 'FV.WsC.C17_unencodable', 'FV.WsC.C17_send_one_frame']
+PROPS['C09']['rule'] = _TCP_RULE + ' || ' + _WS_RULE
+PROPS['C09']['explanation'] = PROPS['C09']['explanation'].replace('Websocket client half: see C17.',
+    'Websocket client half: C17_send_one_frame / C17_failed_write / C17_unencodable (success = exactly one binary frame with the '
+    'whole encoding; a failed frame write or an unencodable message is an error), checked on the real WSClient over a fake '
+    'websocket connection whose message writer, like gorilla\'s, reports a failed flush from Close (payloads of 1 B .. 70 KB, '
+    'around the 125 / 4096 / 65535 byte frame boundaries).')
+
+PROPS['C10']['suites'] = [_CODEC_SUITE, _CHUNK_SUITE, _TCP_SUITE]
+PROPS['C10']['lean_modules'] = PROPS['C10']['lean_modules'] + ['FluentVerif.Props.C05', 'FluentVerif.Props.C06']
+PROPS['C10']['theorems'] = PROPS['C10']['theorems'] + ['FV.Tcp.C05_accept_iff', 'FV.Tcp.C14_no_panic']
+PROPS['C10']['rule'] = PROPS['C10']['rule'] + ' || ' + _TCP_RULE
+PROPS['C10']['explanation'] = PROPS['C10']['explanation'] + (
+    ' Client side: C05_accept_iff — no HELO / PONG byte sequence puts the client into transport phase except one carrying '
+    'the digest for this salt, nonce and key (every other input: error, phase unchanged); the tcp suite feeds truncated, empty, '
+    'upper-case, reflected, replayed and garbage HELO / PONG / ack bytes to the real client.')
